@@ -115,13 +115,13 @@ class StringSerializableRegistry:
         flag = True
         while flag:
             flag = False
-            filtered: Set[T_StringSerializable] = set()
             for t1, t2 in permutations(types, 2):
                 if (t1, t2) in self.replaces:
-                    filtered.add(t2)
+                    # t2 can represent everything t1 can, so only t1 is redundant;
+                    # types unrelated to this pair must be kept
+                    types = types - {t1}
                     flag = True
-            if flag:
-                types = filtered
+                    break
         # noinspection PyUnboundLocalVariable
         return types
 
